@@ -10,7 +10,9 @@ use std::collections::HashSet;
 use std::str::FromStr;
 
 pub const NAMES8: [&str; 3] = ["A", "B", "X-y"];
-pub const VALUES8: [&str; 18] = ["", "v", "v w  ", "é", "a:b", "a #b", ":x", "#x", "v\nw", "\nv", "\nv\nw", "v\n.\nw", "v\nw:x", "v  \nw", "v\nw\t", "é\u{3000}\nw  \nx", "v\n:x", "v\n-x"];
+pub const VALUES8: [&str; 22] = ["", "v", "v w  ", "é", "a:b", "a #b", ":x", "#x", "v\nw", "\nv", "\nv\nw", "v\n.\nw", "v\nw:x", "v  \nw", "v\nw\t", "é\u{3000}\nw  \nx", "v\n:x", "v\n-x",
+    // a continuation line starting with a four-byte character, NUL, form feed / NEL (white space to char::is_whitespace, not to deb822), a tab inside
+    "v\n\u{1f600}w", "a\u{0}b", "v\u{c}\nw\u{85}", "v\tw"];
 
 #[derive(Clone, Serialize, Deserialize, PartialEq, Debug)]
 pub enum LOp {
@@ -148,20 +150,27 @@ fn check_doc(spec: &[Vec<(String, String)>]) -> Vec<Viol> {
 }
 
 type M = Vec<(String, String)>;
-const EDIT_VALUES: [&str; 2] = ["x", "p\nq"];
+/// values written by the edit operations: one line, two lines, the empty value, a value that starts on the next line
+const EDIT_VALUES: [&str; 4] = ["x", "p\nq", "", "\nv"];
+/// names used by the edit operations: the three of the documents plus a twin in another letter case and an extension of a
+/// present name (to the model they are simply other names)
+const EDIT_NAMES: [&str; 5] = ["A", "B", "X-y", "a", "AB"];
+fn ename(n: usize) -> &'static str {
+    EDIT_NAMES[n % EDIT_NAMES.len()]
+}
 
 fn model_apply(m: &mut M, op: &LOp) {
     match op {
         LOp::Set(n, v) => {
-            let (n, v) = (NAMES8[*n], EDIT_VALUES[*v]);
+            let (n, v) = (ename(*n), EDIT_VALUES[*v % EDIT_VALUES.len()]);
             if let Some(f) = m.iter_mut().find(|(k, _)| k == n) {
                 f.1 = v.to_string();
             } else {
                 m.push((n.to_string(), v.to_string()));
             }
         }
-        LOp::Insert(n, v) => m.push((NAMES8[*n].to_string(), EDIT_VALUES[*v].to_string())),
-        LOp::Remove(n) => m.retain(|(k, _)| k != NAMES8[*n]),
+        LOp::Insert(n, v) => m.push((ename(*n).to_string(), EDIT_VALUES[*v % EDIT_VALUES.len()].to_string())),
+        LOp::Remove(n) => m.retain(|(k, _)| k != ename(*n)),
     }
 }
 
@@ -170,9 +179,9 @@ fn run_edit(init: &[(usize, usize)], ops: &[LOp]) -> (Vec<Viol>, String) {
     let mut m: M = init.iter().map(|(n, v)| (NAMES8[*n].to_string(), VALUES8[*v].to_string())).collect();
     for op in ops {
         match op {
-            LOp::Set(n, v) => p.set(NAMES8[*n], EDIT_VALUES[*v]),
-            LOp::Insert(n, v) => p.insert(NAMES8[*n], EDIT_VALUES[*v]),
-            LOp::Remove(n) => p.remove(NAMES8[*n]),
+            LOp::Set(n, v) => p.set(ename(*n), EDIT_VALUES[*v % EDIT_VALUES.len()]),
+            LOp::Insert(n, v) => p.insert(ename(*n), EDIT_VALUES[*v % EDIT_VALUES.len()]),
+            LOp::Remove(n) => p.remove(ename(*n)),
         }
         model_apply(&mut m, op);
     }
@@ -185,14 +194,14 @@ fn run_edit(init: &[(usize, usize)], ops: &[LOp]) -> (Vec<Viol>, String) {
     if p.len() != m.len() || p.is_empty() != m.is_empty() {
         out.push(viol("len", ctx(&format!("len {} model {}", p.len(), m.len()))));
     }
-    for n in NAMES8 {
+    for n in EDIT_NAMES {
         let want = m.iter().find(|(k, _)| k == n).map(|(_, v)| v.as_str());
         if p.get(n) != want {
             out.push(viol("get-first", ctx(&format!("get({}) = {:?}, model {:?}", n, p.get(n), want))));
         }
         // near misses of a name are other names
         for alt in [n.to_lowercase(), format!("{}x", n), n[..n.len() - 1].to_string()] {
-            if !alt.is_empty() && !NAMES8.contains(&alt.as_str()) && p.get(&alt).is_some() {
+            if !alt.is_empty() && !EDIT_NAMES.contains(&alt.as_str()) && p.get(&alt).is_some() {
                 out.push(viol("get-first", ctx(&format!("get({:?}) answers although no field has that name", alt))));
             }
         }
@@ -207,7 +216,7 @@ fn run_edit(init: &[(usize, usize)], ops: &[LOp]) -> (Vec<Viol>, String) {
         }
         // the same paragraph reached by parsing its text answers the accessors alike
         if let Ok(parsed) = lossy::Paragraph::from_str(&printed) {
-            for n in NAMES8 {
+            for n in EDIT_NAMES {
                 if parsed.get(n) != p.get(n) {
                     out.push(viol("get-first", ctx(&format!("after re-reading, get({}) = {:?}, before {:?}", n, parsed.get(n), p.get(n)))));
                 }
@@ -221,8 +230,8 @@ const EDIT_INITS: [&[(usize, usize)]; 6] = [&[], &[(0, 1)], &[(0, 1), (1, 1)], &
 
 fn edit_ops() -> Vec<LOp> {
     let mut v = vec![];
-    for n in 0..3 {
-        for x in 0..2 {
+    for n in 0..EDIT_NAMES.len() {
+        for x in 0..EDIT_VALUES.len() {
             v.push(LOp::Set(n, x));
             v.push(LOp::Insert(n, x));
         }
@@ -240,7 +249,7 @@ impl Prop for C08 {
         "model_checking"
     }
     fn rule(&self, _t: Tier) -> String {
-        "(a) print/parse: the full product of lossy documents over 3 names x 18 canonical values (empty, trailing spaces, Unicode, ':' '#' inside and leading, multi-line, empty first line, '.' line) for one paragraph of 1-3 fields, 2-3 paragraphs of 1 field and (thorough) 2 paragraphs x 2 fields; each is printed, re-read by both readers and checked for one blank line between paragraphs; every printable ASCII character except ':' inside, at the end and (except '-' '#') at the start of a field name x 4 values, printed, re-read and used with get/set/insert/remove; (b) edits: breadth-first search over get/set/insert/remove histories (3 names x 2 values) from 6 initial paragraphs, the state being the field vector itself (exact cache), against a Vec model; states = distinct field vectors, transitions = operations applied; non-trivial = every document / every distinct edit state".into()
+        "(a) print/parse: the full product of lossy documents over 3 names x 22 canonical values (empty, trailing spaces, Unicode, ':' '#' inside and leading, multi-line, empty first line, '.' line) for one paragraph of 1-3 fields, 2-3 paragraphs of 1 field and (thorough) 2 paragraphs x 2 fields; each is printed, re-read by both readers and checked for one blank line between paragraphs; every printable ASCII character except ':' inside, at the end and (except '-' '#') at the start of a field name x 4 values, printed, re-read and used with get/set/insert/remove; (b) edits: breadth-first search over get/set/insert/remove histories (5 names - the three, a twin in another letter case, an extension - x 4 values incl. the empty one and one starting on the next line) from 6 initial paragraphs, the state being the field vector itself (exact cache), against a Vec model; states = distinct field vectors, transitions = operations applied; non-trivial = every document / every distinct edit state".into()
     }
     fn bounds(&self, t: Tier) -> Value {
         json!({"names": NAMES8, "values": VALUES8, "edit_depth": t.pick(4, 6), "edit_initial_paragraphs": EDIT_INITS.len(), "edit_ops": edit_ops().len()})
